@@ -22,7 +22,7 @@ RULE = ('Cases: an ancestor with 1..3 planted insertions/deletions of length 1..
         'planted indels must be reported (inconclusive below 500 planted), over the whole run and over each of its three input populations: random indels, indels that repeat their flank (homopolymer / tandem-unit length changes), and indels whose junction lies inside a split k-mer with self-complementary arms (a quarter of the cases each for the last two).  Non-trivial: >= 1 planted indel; distinct = inputs.')
 ASSUMPTIONS = ['the sample sequences written by the generator are the ground truth',
                'recall is judged on the aggregate of a run with a minimum sample size of 500 planted indels']
-REQUIRED = {t: ['records_checked', 'planted', 'planted:plain', 'planted:flank', 'planted:palin', 'insertions', 'deletions', 'threads>1', 'multi_indel_inputs', 'headers_checked', 'runs_over_existing_output', 'dotted_output_prefix', 'runs_with_-m_0', 'partial_assemblies', 'samples_with_a_diverged_duplicate_near_an_indel'] for t in ('quick', 'thorough')}
+REQUIRED = {t: ['records_checked', 'planted', 'planted:plain', 'planted:flank', 'planted:palin', 'insertions', 'deletions', 'threads>1', 'multi_indel_inputs', 'headers_checked', 'runs_over_existing_output', 'dotted_output_prefix', 'runs_with_-m_0', 'partial_assemblies', 'samples_with_a_diverged_duplicate_near_an_indel', 'runs_with_-v', 'inputs_with_the_same_insertion_at_two_loci'] for t in ('quick', 'thorough')}
 KS = [11, 15, 21, 31]
 
 
@@ -122,8 +122,9 @@ def apply_indels(anc, indels, which):
 
 
 def gen(rng, k, ns, flank_repeat=False):
+    same_event = rng.random() < 0.25
     for _ in range(300):
-        nind = rng.randint(1, 3)
+        nind = rng.randint(1, 3) if not same_event else rng.randint(2, 3)
         L = 8 * k + (nind - 1) * (4 * k + rng.randint(0, k)) + rng.randint(0, 2 * k)
         anc = G.rseq(rng, L)
         sites = []
@@ -174,7 +175,12 @@ def gen(rng, k, ns, flank_repeat=False):
                 car = [rng.random() < 0.5 for _ in range(ns)]
                 if any(car) and not all(car):
                     break
-            indels.append((s, kind, ln, (anc[s:s + ln] if flank_repeat else G.rseq(rng, ln)) if kind == 'ins' else None))
+            ins_ = (anc[s:s + ln] if flank_repeat else G.rseq(rng, ln)) if kind == 'ins' else None
+            if same_event and indels and not flank_repeat and indels[0][1] == 'ins' and kind == 'ins':
+                # the same insertion (same inserted bases, same carriers) at another locus: two records that agree in everything but
+                # their flanks
+                ln, ins_, car = indels[0][2], indels[0][3], list(carriers[0])
+            indels.append((s, kind, ln, ins_))
             carriers.append(car)
         ss = [apply_indels(anc, indels, {j for j in range(len(indels)) if carriers[j][i]}) for i in range(ns)]
         singles = [apply_indels(anc, indels, {j}) for j in range(len(indels))]
@@ -256,6 +262,9 @@ def run_case(desc, ctx):
     # planted data have no missing sample, so the bound is met with equality) and above
     OUT = 'out' if desc['seed'] % 3 else 'res.k%d.v1' % k
     marg = {0: ['-m', '0'], 1: ['-m', '0.5'], 2: ['-m', '0.1']}.get(desc['seed'] % 7, [])
+    if desc['seed'] % 5 == 1:
+        marg = marg + ['-v']                     # the global verbose flag changes what is logged, not what is written
+        res.count('runs_with_-v')
     if OUT != 'out':
         res.count('dotted_output_prefix')
     if marg == ['-m', '0']:
@@ -280,6 +289,8 @@ def run_case(desc, ctx):
         res.count('threads>1')
     if len(indels) > 1:
         res.count('multi_indel_inputs')
+        if any(indels[j][1] == 'ins' and indels[j][3] == indels[0][3] and carriers[j] == carriers[0] for j in range(1, len(indels))) and indels[0][1] == 'ins':
+            res.count('inputs_with_the_same_insertion_at_two_loci')
     detail = {'k': k, 'ancestor': anc, 'samples': ss, 'indels': indels, 'carriers': carriers, 'threads': desc['threads'], 'jitter': desc.get('jitter')}
     if p.returncode != 0:
         res.violate('C18:failed', 'k=%d ns=%d: lo failed on an input with %d planted indels: %s' % (k, ns, len(indels), p.stderr.strip()[-200:]), detail)
